@@ -1,11 +1,44 @@
 import Oracle.Util
+import Wz.Spec.Num
 namespace Oracle.C05
-open Oracle
+open Oracle Wz.Spec.Num
 
-/-- Topic state (stub: no model behind this topic yet). -/
 abbrev St := Unit
 def init : St := ()
 
-def step (st : St) (_args : List String) : St × String := (st, "bad-op")
+def hex (n : Nat) : String := String.ofList (Nat.toDigits 16 n)
+
+def showRes : Res → String
+  | .val v => s!"v:{hex v}"
+  | .nanArith w => s!"nan:{w}"
+  | .trap k => s!"trap:{k}"
+  | .lanes w ls =>
+    let parts := ls.map (fun r => match r with
+      | .val v => hex v
+      | .nanArith _ => "nan"
+      | _ => "?")
+    s!"l:{w}:" ++ ",".intercalate parts
+
+def parseImm (s : String) : Option (List Nat) :=
+  if s == "-" then some [] else (s.splitOn ",").mapM parseNat
+
+/-- `c05 s <name> <arg>…` scalar;  `c05 v <name> <imm|-> <arg>…` vector.  Arguments are hex without prefix. -/
+def step (st : St) (args : List String) : St × String :=
+  match args with
+  | "s" :: name :: rest =>
+    match rest.mapM parseHex with
+    | none => (st, "bad-op")
+    | some vs =>
+      match scalar name vs with
+      | some r => (st, showRes r)
+      | none => (st, "unsupported")
+  | "v" :: name :: imm :: rest =>
+    match rest.mapM parseHex, parseImm imm with
+    | some vs, some im =>
+      match vector name vs im with
+      | some r => (st, showRes r)
+      | none => (st, "unsupported")
+    | _, _ => (st, "bad-op")
+  | _ => (st, "bad-op")
 
 end Oracle.C05
